@@ -37,7 +37,18 @@ fn build(alg: &Algorithm, set: &Map<String, Value>) -> Header {
 fn one(ctx: &mut Ctx, alg: &Algorithm, set: &Map<String, Value>, case: &Value) {
     ctx.report.evaluations += 1;
     let fam = keys::family(alg);
-    let header = build(alg, set);
+    let mut header = build(alg, set);
+    // one case in six also embeds a public key (`jwk`, a member the property does not list) that carries a `kid`
+    // of its own: the listed members must still be exactly the ones that were set (`jwk` itself is left out of
+    // the comparison)
+    let with_jwk = crate::report::hash_of(&json!([case, "jwk"])) % 6 == 0;
+    if with_jwk {
+        let mut k = keys::holder_jwk();
+        k["kid"] = json!("kid-inside-the-jwk");
+        header.jwk = Some(k);
+        ctx.report.bump("jwk-set");
+    }
+    let drop_jwk = |mut v: Value| -> Value { if with_jwk { if let Some(o) = v.as_object_mut() { o.remove("jwk"); } } v };
     // canonical JSON of h: each set field under its own member name, nothing else
     let mut expected = set.clone();
     expected.insert("alg".into(), json!(keys::alg_name(alg)));
@@ -81,12 +92,12 @@ fn one(ctx: &mut Ctx, alg: &Algorithm, set: &Map<String, Value>, case: &Value) {
     let jwt = token.split('~').next().unwrap_or("").to_string();
     let m = ctx.driver.ask(&json!({"op":"header","h":expected}));
     let results: Vec<(&str, Out<Value>)> = vec![
-        ("Holder::verify", real::holder_verify(&token, &dec, &v).map(|x| x.0)),
-        ("Verifier::verify", real::verifier_verify(&token, &dec, &v, None).map(|x| x.0)),
-        ("decode", real::guard(|| sdjwt::decode(&jwt, &dec, &v)).map(|x| x.0)),
+        ("Holder::verify", real::holder_verify(&token, &dec, &v).map(|x| drop_jwk(x.0))),
+        ("Verifier::verify", real::verifier_verify(&token, &dec, &v, None).map(|x| drop_jwk(x.0))),
+        ("decode", real::guard(|| sdjwt::decode(&jwt, &dec, &v)).map(|x| drop_jwk(x.0))),
     ];
     // what is actually on the wire, decoded by the harness
-    let wire = real::peek_jwt(&jwt).map(|x| x.0).unwrap_or(Value::Null);
+    let wire = drop_jwk(real::peek_jwt(&jwt).map(|x| x.0).unwrap_or(Value::Null));
     if wire != expected {
         ctx.report.diff("property", "Issuer::encode", "Issuer::encode:header-on-the-wire", case, json!({"wire": wire, "expected": expected}));
     }
